@@ -726,7 +726,7 @@ def expected_frames(cols, cellfn, segs, nm):
             f = _factor(nm, seg_lens, i, k)
             if f == "err":
                 return "err"
-            rows.append([Fraction(cellfn(i, k, c)) / f for c in cols])
+            rows.append([(None if (v := cellfn(i, k, c)) is None else Fraction(v) / f) for c in cols])
         out.append({"idx": [Fraction(t) for t, _ in seg], "cols": list(cols), "rows": rows})
     return out
 
@@ -735,8 +735,16 @@ def stack(frames):
     return {"idx": [t for f in frames for t in f["idx"]], "cols": frames[0]["cols"], "rows": [r for f in frames for r in f["rows"]]}
 
 
-def oracle_case(case, obs) -> tuple[list[tuple[int, str]], dict]:
-    """-> ([(op index, what is wrong)], stats).  Judges every output against the property."""
+PRODCONS_FINDING = "C10-prodcons-coefficient-frame"
+
+
+def oracle_case(case, obs, full_prodcons: bool = False) -> tuple[list[tuple[int, str]], dict]:
+    """-> ([(op index, what is wrong)], stats).  Judges every output against the property.
+
+    full_prodcons=True: producers/consumers are judged against the property's rule (coefficient on every
+    reported row, NaN where a listed flux has the other sign).  False (only while the finding
+    C10-prodcons-coefficient-frame is recorded): reads inside the finding's guard are skipped, the others
+    are judged against the rule on which old and new bodies agree (constant sign, parameter-only coefficients)."""
     spec, ops = case["spec"], case["ops"]
     segs, pars = obs["segs"], obs["pars"]
     vnames = list(spec["vars"])
@@ -745,13 +753,13 @@ def oracle_case(case, obs) -> tuple[list[tuple[int, str]], dict]:
     rxns = [(n, st) for k, n, _f, _a, st in spec["comps"] if k == "r"]
     po = param_only(spec)
     bad: list[tuple[int, str]] = []
-    stats = {"prodcons_outside_guard": 0, "checked": 0, "error_outputs_accepted": 0}
+    stats = {"prodcons_outside_guard": 0, "prodcons_full_rule": 0, "checked": 0, "error_outputs_accepted": 0}
 
     def rhs_cell(i, k, var):
         e = envs[i][k]
         return sum(coef_value(c, e) * e[rn] for rn, st in rxns for cpd, c in st if cpd == var)
 
-    def judge(j, got, exp_frames, conc):
+    def judge(j, got, exp_frames, conc, masked=False):
         stats["checked"] += 1
         if exp_frames == "err":
             if got[0] != "err":
@@ -759,7 +767,8 @@ def oracle_case(case, obs) -> tuple[list[tuple[int, str]], dict]:
             else:
                 stats["error_outputs_accepted"] += 1
             return
-        exp = ["frame", stack(exp_frames)] if conc else ["frames", exp_frames]
+        pre = "m" if masked else ""
+        exp = [pre + "frame", stack(exp_frames)] if conc else [pre + "frames", exp_frames]
         if got != exp:
             bad.append((j, _describe_diff(got, exp)))
 
@@ -795,6 +804,15 @@ def oracle_case(case, obs) -> tuple[list[tuple[int, str]], dict]:
             if not entries:
                 stats["error_outputs_accepted"] += 1  # no claim for a variable without reactions
                 continue
+            want = 1 if k == "prod" else -1
+            if full_prodcons:
+                # the property: the coefficient under the row's segment's parameters at the row's state and time
+                rc = [[{rn: want * coef_value(c, e) for rn, c in entries} for e in envs[i]] for i in range(len(segs))]
+                cols = [rn for rn, _ in entries if any(row[rn] > 0 for seg in rc for row in seg)]
+                cell = lambda i, r, c: None if rc[i][r][c] <= 0 else envs[i][r][c] * (rc[i][r][c] if scaled else 1)  # noqa: E731
+                stats["prodcons_full_rule"] += 1
+                judge(j, got, expected_frames(cols, cell, segs, nm), conc, masked=True)
+                continue
             state_dep = any(not isinstance(c, int) and not all(a in po for a in c[1]) for _, c in entries)
             coefs = [{rn: coef_value(c, init_envs[i]) for rn, c in entries} for i in range(len(segs))]
             sgn = lambda v: (v > 0) - (v < 0)  # noqa: E731
@@ -802,10 +820,9 @@ def oracle_case(case, obs) -> tuple[list[tuple[int, str]], dict]:
             if state_dep or not sign_const:
                 stats["prodcons_outside_guard"] += 1  # known finding C10-prodcons-coefficient-frame
                 continue
-            want = 1 if k == "prod" else -1
             cols = [rn for rn, _ in entries if sgn(coefs[0][rn]) == want]
             cell = lambda i, r, c: envs[i][r][c] * (abs(coefs[i][c]) if scaled else 1)  # noqa: E731
-            judge(j, got, expected_frames(cols, cell, segs, nm), conc)
+            judge(j, got, expected_frames(cols, cell, segs, nm), conc, masked=True)
         elif k == "y0":
             stats["checked"] += 1
             exp = ["dict", [[v, Fraction(x)] for v, x in zip(vnames, segs[-1][-1][1])]]
@@ -820,8 +837,8 @@ def oracle_case(case, obs) -> tuple[list[tuple[int, str]], dict]:
 def _describe_diff(got, exp) -> str:
     if got[0] != exp[0]:
         return f"expected a {exp[0]}, got {got[0]} {str(got[1])[:80]}"
-    gf = got[1] if got[0] == "frames" else [got[1]]
-    ef = exp[1] if exp[0] == "frames" else [exp[1]]
+    gf = got[1] if got[0] in ("frames", "mframes") else [got[1]]
+    ef = exp[1] if exp[0] in ("frames", "mframes") else [exp[1]]
     if len(gf) != len(ef):
         return f"{len(gf)} frames instead of {len(ef)}"
     for s, (a, b) in enumerate(zip(gf, ef)):
@@ -832,7 +849,8 @@ def _describe_diff(got, exp) -> str:
         for r, (ra, rb) in enumerate(zip(a["rows"], b["rows"])):
             for c, (x, y) in enumerate(zip(ra, rb)):
                 if x != y:
-                    return f"frame {s} row {r} (t={a['idx'][r]}) column {a['cols'][c]}: reported {x}, the model's value is {y}"
+                    return (f"frame {s} row {r} (t={a['idx'][r]}) column {a['cols'][c]}: reported {'NaN' if x is None else x}, "
+                            f"the model's value is {'NaN (not a flux of this sign here)' if y is None else y}")
         if len(a["rows"]) != len(b["rows"]):
             return f"frame {s}: {len(a['rows'])} rows instead of {len(b['rows'])}"
     return "outputs differ"
@@ -1024,10 +1042,11 @@ def finding_still_fails(case=FINDING_WITNESS) -> tuple[bool, str]:
         return False, obs["error"]
     prod, cons = obs["outs"][0], obs["outs"][1]
     try:
-        fails = prod[0] == "frames" and "r0" in prod[1][1]["cols"] and "r0" not in cons[1][1]["cols"]
+        seg1 = prod[1][1]
+        fails = prod[0] == "mframes" and "r0" in seg1["cols"] and seg1["rows"][0][seg1["cols"].index("r0")] is not None
     except Exception:  # noqa: BLE001
         fails = False
-    return fails, f"producers(x0) segment 1 columns={prod[1][1]['cols'] if prod[0] == 'frames' else prod}; coefficient of r0 there is p0=-1"
+    return fails, f"producers(x0) segment 1 = {prod[1][1] if prod[0] == 'mframes' else prod}; coefficient of r0 there is p0=-1 (consumers: {cons[0]})"
 
 
 # ---------------------------------------------------------------------------------------
@@ -1045,17 +1064,48 @@ def make_case(rng) -> dict:
     return {"kind": result["mode"], "spec": spec, "result": result, "ops": gen_ops(rng, spec, seg_lens)}
 
 
+def expected_prod() -> str:
+    """the switch coq/simres/ExpectedFacts.v (tools/c10_switch.py)"""
+    import re
+
+    try:
+        m = re.search(r"Definition C10_expected_prod : prod_kind := (\w+)\.", (common.area_dir(AREA) / "ExpectedFacts.v").read_text())
+    except OSError:
+        return "missing"
+    return m.group(1) if m else "unreadable"
+
+
+def recorded_findings() -> dict:
+    return {f.get("id"): f for f in common.load_known_findings("C10")}
+
+
 def check(run: Run) -> None:
+    global PROD_KIND  # noqa: PLW0603
+    from harness import c10_assign
+
     thorough = run.tier == "thorough"
     facts = gen()
     run.coverage["gen_facts"] = facts
+    PROD_KIND = facts["prod"]
+    recorded = recorded_findings()
+    full_prodcons = PRODCONS_FINDING not in recorded
+    run.coverage["mode"] = {
+        "expected_prod (switch coq/simres/ExpectedFacts.v)": expected_prod(),
+        "regenerated prod": facts["prod"],
+        "oracle judges producers/consumers by": "the property's per-row rule" if full_prodcons else
+        "the rule shared by old and new bodies; reads inside the guard of the recorded finding are skipped",
+        "assignment-defined parameters": "all cases judged" if c10_assign.FINDING not in recorded else
+        "cases inside the guard of the recorded finding are excused",
+    }
     run.rule = (
         "random models (1-3 variables, 1-3 parameters, derived parameters/variables, reactions with numeric, parameter-computed "
         "and state-computed coefficients, readouts; 30% declared out of dependency order), results of 1-4 segments built through "
         "the real Simulator with an exact integer integrator and parameter changes between segments (75%) or constructed directly "
         "with arbitrary integer states (25%), then 4-9 reads drawn from all view methods x flags x {no, scalar, per-segment, per-row, "
         "too long, too short} normalisation, interleaved with model.update_parameter; a case is non-trivial if it has >= 2 segments "
-        "or a computed coefficient; distinct by content"
+        "or a computed coefficient; distinct by content.  Second stream (oracle only, harness/c10_assign.py): models in which some "
+        "parameters are given by an initial assignment over other parameters, the definition (number / assignment) changing between "
+        "segments and by user edits among the reads in 60% of the cases"
     )
     proofs_ok = run.check_proofs(AREA, PROPS)
     run.assumptions += [
@@ -1067,7 +1117,10 @@ def check(run: Run) -> None:
         "model content (invalidation is property C03; update_parameter's decorator is pinned by rf_model_shape)",
         "'the model's values' in the theorems are what Model.get_args_time_course computes under the segment's parameters; that these "
         "are the resolved component values is checked by the oracle here and is the subject of C01/C13",
-        "not modelled: surrogates, data, initial assignments, duplicate time stamps, zero normalisation factors, floating point",
+        "not modelled in Coq: surrogates, data, initial assignments (assignment-defined PARAMETERS are validated by the oracle stream "
+        "harness/c10_assign.py only), duplicate time stamps, zero normalisation factors, floating point",
+        "hypothesis wf_names of the N*v theorems (unique names, 'time' protected = Model._insert_id) is evaluated to true in Coq on every "
+        "generated model (wf_namesb, sound by C10_wf_names_checked)",
         "correspondence harness: literal printer, output canonicaliser, coqc output parser",
     ]
 
@@ -1091,7 +1144,7 @@ def check(run: Run) -> None:
                 run.violation(f"views of a finite result did not answer within 20 s: {obs['error']}", {"kind": "case", "case": case})
             continue
         try:
-            bad, stats = oracle_case(case, obs)
+            bad, stats = oracle_case(case, obs, full_prodcons)
         except Discard as d:
             bump(f"discarded:{d}")
             continue
@@ -1114,7 +1167,7 @@ def check(run: Run) -> None:
             if n_viol < 6:
                 n_viol += 1
                 small = dict(case)
-                small["ops"] = _shrink_ops(case, j)
+                small["ops"] = _shrink_ops(case, j, full_prodcons)
                 run.violation(f"Simulation.{case['ops'][j][0]}: {what}", {"kind": "case", "case": small, "failing_op": case["ops"][j]})
         if ci < 4:
             run.sample({"case": case, "outs": [o[0] for o in obs["outs"]]})
@@ -1141,17 +1194,54 @@ def check(run: Run) -> None:
     run.coverage["traces_validated_against_impl"] = len(coq_cases) - mism
     run.coverage["correspondence_mismatches"] = mism
 
-    # known finding: replay the witness
-    for f in common.load_known_findings("C10"):
+    # second stream: assignment-defined parameters (oracle only)
+    arng = common.rng_for(run.seed, "c10-assign")
+    acases = [dict(c10_assign.WITNESS)] + [c10_assign.gen_case(arng) for _ in range(300 if thorough else 70)]
+    adist: dict[str, int] = {}
+    abump = lambda k, n=1: adist.__setitem__(k, adist.get(k, 0) + n)  # noqa: E731
+    for ai, case in enumerate(acases):
+        obs = c10_assign.run_case(case)
+        if "error" in obs:
+            abump("discarded:" + obs["error"][:40])
+            continue
+        try:
+            bad = c10_assign.oracle(case, obs)
+        except Discard as d:
+            abump(f"discarded:{d}")
+            continue
+        inside = c10_assign.inside_guard(case)
+        run.count_case(("assign", case["spec"], case["defs"], case["script"], case["ops"]), nontrivial=True)
+        abump("inside_guard" if inside else "outside_guard")
+        abump(f"segments={len(obs['segs'])}")
+        if bad and inside and c10_assign.FINDING in recorded:
+            abump("excused_by_recorded_finding")
+            continue
+        for j, what in bad:
+            if n_viol < 6:
+                n_viol += 1
+                run.violation(f"assignment-defined parameter, Simulation.{case['ops'][j][0]}: {what}",
+                              {"kind": "assign-case", "case": case, "failing_op": case["ops"][j]})
+        if ai < 2:
+            run.sample({"assign_case": case, "outs": [o[0] for o in obs["outs"]]})
+    run.coverage["assigned_parameter_stream"] = dict(sorted(adist.items()))
+
+    # known findings: replay the witnesses
+    if PRODCONS_FINDING in recorded:
+        f = recorded[PRODCONS_FINDING]
         w = f.get("witness") or FINDING_WITNESS
         still, what = finding_still_fails(w if "spec" in w else FINDING_WITNESS)
+        if still:
+            run.known(f["id"], f.get("what_fails", what))
+    if c10_assign.FINDING in recorded:
+        f = recorded[c10_assign.FINDING]
+        still, what = c10_assign.witness_still_fails()
         if still:
             run.known(f["id"], f.get("what_fails", what))
     if not proofs_ok:
         run.note("proof obligations broken; the oracle judged every generated read on the implementation (see violations)")
 
 
-def _shrink_ops(case, j) -> list:
+def _shrink_ops(case, j, full_prodcons=False) -> list:
     """keep the failing read (and the user edits before it): the property is per read"""
     keep = [op for op in case["ops"][:j] if op[0] == "upd"] + [case["ops"][j]]
     trial = dict(case)
@@ -1159,7 +1249,7 @@ def _shrink_ops(case, j) -> list:
     obs = run_case_impl(trial)
     if "error" not in obs:
         try:
-            if oracle_case(trial, obs)[0]:
+            if oracle_case(trial, obs, full_prodcons)[0]:
                 return keep
         except Discard:
             pass
@@ -1167,17 +1257,39 @@ def _shrink_ops(case, j) -> list:
 
 
 def replay(rep: dict) -> int:
+    from harness import c10_assign
+
     r = rep["replay"]
+    recorded = recorded_findings()
+    if r.get("kind") == "assign-case":
+        case = r["case"]
+        obs = c10_assign.run_case(case)
+        if "error" in obs:
+            print("implementation:", obs["error"])
+            return 1
+        try:
+            bad = c10_assign.oracle(case, obs)
+        except Discard as d:
+            print("case discarded by the oracle:", d)
+            return 0
+        for op, o in zip(case["ops"], obs["outs"]):
+            print("read", op, "->", o[0], (o[1] if o[0] == "err" else ""))
+        for j, what in bad:
+            print(f"oracle: read #{j} {case['ops'][j][0]}: {what}")
+        print("segment valuations (from the input):", c10_assign.segment_valuations(case))
+        print("property", "VIOLATED" if bad else "holds on this input")
+        return 1 if bad else 0
     if r.get("kind") != "case":
         print("nothing to replay:", rep.get("what"))
         return 1
     case = r["case"]
+    full_prodcons = PRODCONS_FINDING not in recorded
     obs = run_case_impl(case)
     if "error" in obs:
         print("implementation:", obs["error"])
         return 1
     try:
-        bad, stats = oracle_case(case, obs)
+        bad, stats = oracle_case(case, obs, full_prodcons)
     except Discard as d:
         print("case discarded by the oracle:", d)
         return 0
